@@ -9,10 +9,19 @@ decl:  {"k": "param", "desc"?, "dt"?, "props": {..}, "inherit": bool} | {"k": "v
      | {"k": "cmd", "desc"?, "arg"?, "props": {..}, "inherit": bool} | {"k": "method"}
 dt:    {"t": "float"|"int"|"string"|"bool"|"enum"|"array", "props": {..}, "members": {name: int}?, "child": dt?}
 
+  {"op": "load", "name", "cls", "cfg", "share"?: {key: [section, key']}, "groups"?: {group: [keys]}}   a module section of the
+        configuration is loaded (frappy.config.Mod / Param / Group objects); `share`: ONE Param object used for several modules
+  {"op": "inst", "name", "cls", "from": section}   a module created from a loaded section through SecNode.get_module_instance -
+        again for a second start (restart); an "inst" with "cfg" loads the section under the name of the module and creates it
+  {"op": "mutate", "inst", "par": "controlled_by", "kind": "enum", "member"}   on a module with the mixin HasControlledBy: the real
+        register_input with a recording callback
+
 After EVERY operation every live owner (frappy's own Readable/Writable/Drivable/HasControlledBy, every generated class,
 every instance) is dumped: for_export() of all accessibles in order, internal default/value, the outcome of a boundary
 catalogue through every parameter datatype, module properties, and the id()-partition of the accessible / datatype /
-enum / member-datatype / mutable property-value objects.  Python only runs the code and canonicalises; whether a dump
+enum / member-datatype / mutable property-value objects; for a class also a digest of its whole namespace, for an instance of
+its `vars()` and (mixin HasControlledBy) of which registered callbacks self_controlled()/update_target() call; every loaded module
+section is an owner, too (its entries with the items of their Param objects).  Python only runs the code and canonicalises; whether a dump
 of a non-target owner changed, whether two definition orders agree and whether a fresh instance shows its class's
 description is decided by the Lean monitors (Spec/C09.lean); the Lean heap model (Klass/*) has to predict every dump
 and the sharing partition.
@@ -39,12 +48,22 @@ META = {
                   'inheritance, show the same heap description for every common class - it is viewsOf(env), a function of the class '
                   'bodies along the MRO), order_independent_mprops, class_mprops_faithful, inst_description_function / '
                   'inst_mprops_function (the description of an instance is a function of viewsOf/pureOf of its class and its '
-                  'configuration).  '
+                  'configuration).  Around the heap (FrappyModel/Klass/Session.lean: the loaded configuration as objects - module '
+                  'sections, Param objects shared between sections, Group arguments; module properties computed from the class chain; '
+                  'input-callback tables): config_isolated / config_isolated_run (no operation, in particular no module creation, '
+                  'changes what a loaded section shows), recreate_same (a module created from a section after any admissible run - '
+                  'other modules from this section or from sections sharing Param objects, a restart - shows what one created now '
+                  'shows, accessibles and module properties), module_description_function (the description is instViews of viewsOf(env) '
+                  'of the class and of the items the section had WHEN IT WAS LOADED), features_function / later_instances_same_features '
+                  '(features and interface_classes depend on the MRO and the direct bases along it only, whatever was created '
+                  'before), control_isolated / inputs_only_by_own_registration / control_calls_isolated (the table of input callbacks '
+                  'of a module, and what self_controlled() calls, change by registrations with that module only).  '
                   'Tied to the code by a correspondence run (every dump, '
                   'propertyDict, property values, exportProperties and the id()-sharing partition incl. Property objects and member '
                   'datatypes after every operation of generated programs) and by Lean monitors judging every implementation trace '
-                  '(isolation incl. write_<p>/command-call behaviour and module properties, order independence, later instances, writes '
-                  'follow the own datatype).',
+                  '(isolation incl. write_<p>/command-call behaviour, module properties, loaded configuration sections, class and '
+                  'instance namespaces and input-callback behaviour; order independence of classes AND of module creation; later '
+                  'instances incl. a second creation from the same loaded section; writes follow the own datatype).',
     'level_note': 'Trusted: Lean kernel + axioms propext/Classical.choice/Quot.sound; Python C3 linearisation is an input (the real '
                   '__mro__ is passed to the model); validation behaviour is taken to be a function of the exported datainfo '
                   '(monitored on every run); whether an operation fails is taken from the implementation (the model skips failed '
@@ -57,9 +76,13 @@ META = {
         'validation behaviour of a datatype object is a function of its exported datainfo (checked by the monitor valFunctionalB on every run)',
         'class bodies are drawn from a template family (type() with Parameter/Command/Property/bare value/None/method declarations), not arbitrary Python',
         'a LimitsType is told to the model as such (kind "limits", one member); every other datatype object by its exported datainfo',
+        'the items of a Param object and the entries of a Mod are told to the model in the order frappy.config builds them (value last); SECoP_BASE_CLASSES is passed to the driver with every request',
     ],
     'modelled_not_verified': [
-        'module properties set by Module.__init__ from the class chain (implementation, interface_classes, features): dumped and judged, not predicted',
+        'the module property `implementation` (dumped and judged, not predicted; features and interface_classes are predicted by the Session model)',
+        'the session layer (loaded configuration, class-chain properties, input tables) is a separate state next to the object heap: that module creation only READS the Param objects is the transcription of modulebase.py:476-481 / secnode.py:135, checked by the correspondence run, not derived from a model of dict operations',
+        'HasOutputModule.initModule/activate_control (the controller side) is not run: register_input is called on the output module with a recording callback',
+        'the class/instance namespace digest (names and plain-data values, other objects by type name) is judged, not predicted',
         'read_/write_/check_ wrapper generation in __init_subclass__',
         'Limit parameters (<p>_min/_max/_limits); ScaledInteger, BLOBType, StatusType/OrType/NoneOr as parameter datatypes (StatusType appears through frappy.modules only)',
         'outcomes of write_<p>(v) through the generated wrapper and of Command.do(): dumped, judged (isolation, order, writesOwn), not predicted',
@@ -1000,7 +1023,7 @@ def gen_program(rng, big):
             ncls += 1
             name = 'K%d' % ncls
             is_mixin = rng.random() < 0.2
-            is_feature = not is_mixin and rng.random() < 0.14
+            is_feature = not is_mixin and rng.random() < 0.2
             if is_mixin:
                 bases = [rng.choice(mixins)] if mixins and rng.random() < 0.2 else []
             elif is_feature:
@@ -1024,6 +1047,11 @@ def gen_program(rng, big):
                         bases.insert(0, c)
                     else:
                         bases.append(c)
+            if not is_mixin and not is_feature and features and rng.random() < 0.5:
+                # a module class using a feature (usually added by a subclass of a concrete module class)
+                f = rng.choice(features)
+                if not any(related(ex, f, b) for b in bases):
+                    bases.insert(0, f)
             est = {}
             for b in reversed(bases):
                 est.update(kinds.get(b, {}))
@@ -1629,7 +1657,7 @@ def run(ctx):
         for fn in sorted(os.listdir(cdir)):
             with open(os.path.join(cdir, fn)) as f:
                 cases.append(('corpus', json.load(f)['case']))
-    n = ctx.budget(240, 1200)
+    n = ctx.budget(220, 1100)
     shrunk = 0
     batch_reqs, batch_meta = [], []
 
@@ -1686,6 +1714,8 @@ def run(ctx):
         for st in steps:
             res.count('op.%s.%s' % (st['op']['op'], st['outcome']))
             if st['op']['op'] == 'class':
+                if 'Feature' in (st.get('mro') or [])[1:2] or any(b in BUILTIN_MIXINS for b in st['op']['bases']):
+                    res.count('class.' + ('feature' if 'Feature' in (st.get('mro') or [])[1:2] else 'uses-control-mixin'))
                 for a, d in st['op']['decls']:
                     if a in MPROP_ROOT or a in MPROP_CUSTOM:
                         res.count('decl.module-property.' + d['k'])
@@ -1694,7 +1724,25 @@ def run(ctx):
                     if d['k'] == 'param' and d.get('dt'):
                         res.count('decl.datatype.' + str(d['dt']['t'] if isinstance(d['dt'], dict) else d['dt']))
             elif st['op']['op'] == 'mutate':
-                res.count('mutate.%s%s.%s' % (st['op']['kind'], '.member' if st['op'].get('path') else '', st['outcome'].split(':')[0]))
+                res.count('mutate.%s%s%s.%s' % (st['op']['kind'], '.member' if st['op'].get('path') else '',
+                                                '.register_input' if st.get('registered') else '', st['outcome'].split(':')[0]))
+            if st['op']['op'] in ('inst', 'load'):
+                o = st['op']
+                if o.get('from') is not None and o['op'] == 'inst':
+                    again = any(p['op']['op'] == 'inst' and p['outcome'] == 'ok' and p is not st and
+                                (p['op'].get('from') or p['op']['name']) == o['from'] for p in steps[:steps.index(st)])
+                    res.count('inst.from-loaded-section.' + ('again(restart)' if again else 'first'))
+                if o.get('share'):
+                    res.count('cfg.shares-a-param-object')
+                if o.get('groups'):
+                    res.count('cfg.groups' + ('.of-shared-param' if set(o.get('share') or ()) & {m for ms in o['groups'].values() for m in ms} else ''))
+                if any(isinstance(c, dict) and 'constant' in c for c in (o.get('cfg') or {}).values()):
+                    res.count('cfg.constant')
+                if o['op'] == 'inst' and st['outcome'] == 'ok':
+                    mv = dict(st['after'].get(st['target'], {}).get('mvals') or [])
+                    res.count('inst.features=%d' % len(json.loads(mv.get('features') or '[]')))
+                    if 'ctrl' in st['after'].get(st['target'], {}):
+                        res.count('inst.with-input-callbacks')
             elif st['op']['op'] == 'inst' and any(k in MPROP_ROOT or k in MPROP_CUSTOM for k in st['op'].get('cfg') or ()):
                 res.count('inst.cfg.module-property.' + st['outcome'].split(':')[0])
         if any(len({x.rsplit(':', 1)[0] for x in g if '/prop/' in x}) > 1 and any(x.startswith('inst:') for x in g if '/prop/' in x)
